@@ -9,9 +9,10 @@ for sid in ids:
     d = f"/verif/seeded/{sid}"
     meta = json.load(open(f"{d}/meta.json"))
     props = [meta["property"]] + meta.get("also_run", [])
-    a = subprocess.run(f"git -C /repo apply {d}/patch.diff", shell=True, capture_output=True, text=True)
+    pf = f"{d}/patch_rebased.diff" if os.path.exists(f"{d}/patch_rebased.diff") else f"{d}/patch.diff"
+    a = subprocess.run(f"git -C /repo apply {pf}", shell=True, capture_output=True, text=True)
     if a.returncode:   # the tree has moved on (fix: commits): 3-way merge of the seeded change onto the current HEAD
-        a = subprocess.run(f"git -C /repo apply --3way {d}/patch.diff && git -C /repo reset -q", shell=True, capture_output=True, text=True)
+        a = subprocess.run(f"git -C /repo apply --3way {pf} && git -C /repo reset -q", shell=True, capture_output=True, text=True)
         if a.returncode or "<<<<<<<" in subprocess.run("git -C /repo diff", shell=True, capture_output=True, text=True).stdout:
             print(sid, "patch does not apply (even 3-way)", a.stderr[-200:]); subprocess.run("git -C /repo reset -q --hard HEAD", shell=True); continue
     try:
